@@ -323,6 +323,8 @@ def conclude(mod, prop, tier, seed, results, wall, write_evidence=True):
         prop, tier, seed, len(results), verdicts['held'], verdicts['violated'], verdicts['inconclusive'],
         len(sigs), wall))
     print('  observed: ' + ', '.join('%s=%d' % kv for kv in sorted(counters.items())))
+    slow = sorted(results, key=lambda r: -r.get('wall', 0))[:3]
+    print('  slowest cases: ' + ', '.join('#%d(%s) %.1fs' % (r['index'], r.get('variant', ''), r.get('wall', 0)) for r in slow))
     if why:
         print('  inconclusive: ' + json.dumps(why, sort_keys=True))
     for ln in lines:
